@@ -266,3 +266,15 @@ ADD8 = {
 for _k, (_t, _x) in ADD8.items():
     _tech, _text, _note = CLAIMED[_k]
     CLAIMED[_k] = (_tech + _t, _text + _x, _note)
+
+ADD9 = {
+ "C01": ("; the single-operation fallback is guarded by an empty operation name",
+         " Also decides that an operation name that is not in the document selects nothing."),
+ "C04": ("",
+         ""),
+ "C16": ("; carry-over, derivation-site and extension-target rules for the implied schema (the registered Go type is carried over, only a load derives again, derived fields are not taken over as explicit ones, an extension is applied to a schema made for the load)",
+         " Also decides that extending an implied schema gives the same schema however the definitions are split over loads."),
+}
+for _k, (_t, _x) in ADD9.items():
+    _tech, _text, _note = CLAIMED[_k]
+    CLAIMED[_k] = (_tech + _t, _text + _x, _note)
